@@ -6,6 +6,7 @@ import (
 	"context"
 	"fmt"
 	"net/http"
+	"time"
 
 	"github.com/modelcontextprotocol/go-sdk/mcp"
 	"github.com/modelcontextprotocol/go-sdk/verif/memhttp"
@@ -32,10 +33,19 @@ type Config struct {
 	// EmptySessionID (stateful streamable only) asks the caller to configure ServerOptions.GetSessionID to
 	// return "" (documented special case: no Mcp-Session-Id is issued, every request gets an ephemeral session).
 	EmptySessionID bool `json:"empty_session_id,omitempty"`
+	// ClientFirst (inmem/pipe with a Subset only): the server side connects 1 ms (virtual) after New
+	// returns, so a client that connects at once already has its first message on the wire when the server
+	// session starts reading.
+	// (A transport may let the peer talk as soon as it is connected; the legacy SSE transport does.)
+	ClientFirst bool `json:"client_first,omitempty"`
 }
 
 func (c Config) String() string {
-	return fmt.Sprintf("%s/json=%v/store=%v/subset=%s/nosse=%v/emptyid=%v", c.Kind, c.JSON, c.Store, c.Subset, c.NoStandalone, c.EmptySessionID)
+	s := fmt.Sprintf("%s/json=%v/store=%v/subset=%s/nosse=%v/emptyid=%v", c.Kind, c.JSON, c.Store, c.Subset, c.NoStandalone, c.EmptySessionID)
+	if c.ClientFirst {
+		s += "/clientfirst"
+	}
+	return s
 }
 
 // SubsetSupports is the version filter a "subset" server transport advertises.
@@ -90,6 +100,14 @@ func New(server *mcp.Server, cfg Config) (*Link, error) {
 		if cfg.Subset != "" {
 			t = subsetTransport{st, cfg.Subset}
 		}
+		if cfg.ClientFirst && cfg.Subset != "" {
+			l.ClientTransport = ct
+			go func() {
+				time.Sleep(time.Millisecond)
+				server.Connect(ctx, t, nil)
+			}()
+			break
+		}
 		ss, err := server.Connect(ctx, t, nil)
 		if err != nil {
 			return nil, err
@@ -100,6 +118,14 @@ func New(server *mcp.Server, cfg Config) (*Link, error) {
 		var t mcp.Transport = &mcp.IOTransport{Reader: a, Writer: a}
 		if cfg.Subset != "" {
 			t = subsetTransport{t, cfg.Subset}
+		}
+		if cfg.ClientFirst && cfg.Subset != "" {
+			l.ClientTransport = &mcp.IOTransport{Reader: b, Writer: b}
+			go func() {
+				time.Sleep(time.Millisecond)
+				server.Connect(ctx, t, nil)
+			}()
+			break
 		}
 		ss, err := server.Connect(ctx, t, nil)
 		if err != nil {
